@@ -636,6 +636,26 @@ func storesErr(info *types.Info, block *ast.BlockStmt, errExpr ast.Expr) bool {
 			if mentions(info, x.Value, errExpr) {
 				found = true
 			}
+		case *ast.ReturnStmt:
+			// `return result{line: n, err: fmt.Errorf(…)}`: the error leaves in an error-typed field of the result
+			for _, r := range x.Results {
+				cl, ok := core.Unparen(r).(*ast.CompositeLit)
+				if !ok {
+					if ue, isAddr := core.Unparen(r).(*ast.UnaryExpr); isAddr && ue.Op == token.AND {
+						cl, ok = core.Unparen(ue.X).(*ast.CompositeLit)
+					}
+				}
+				if !ok {
+					continue
+				}
+				for _, el := range cl.Elts {
+					if kv, ok := el.(*ast.KeyValueExpr); ok {
+						if tv, ok := info.Types[kv.Value]; ok && core.IsErrorType(tv.Type) && !core.IsNilIdent(info, kv.Value) {
+							found = true
+						}
+					}
+				}
+			}
 		}
 		return !found
 	})
